@@ -379,6 +379,89 @@ def check_emptyfree(ctx, prog):
     ctx.require(n >= 4, "R3.emptyfree: only %d release-on-empty tests found" % n)
 
 
+# destructors that guard the release of a field by something other than that field: (function, field text) -> (guard, reason)
+DESTRUCTOR_GUARDS = {
+    ("ncmpio_hash_table_free", "nameT[i].list"):
+        ("nameT[i].num > 0", "the bucket list is released whenever its count drops to 0 (R3.emptyfree decides that), so count > 0 "
+                             "is exactly 'list allocated'"),
+}
+
+
+def controlling_conditions(fn, bid):
+    """branch blocks the block is control-dependent on (asserts, whose failing side does not return, excluded)"""
+    pd = cfg.postdominators(fn)
+    out = []
+    for d, blk in fn.blocks.items():
+        if blk.cond is None or len(blk.succs) != 2 or d == bid:
+            continue
+        if bid in pd.get(d, set()):
+            continue
+        succs = [s_ for s_ in blk.succs if s_ is not None]
+        if any(fn.blocks[s_].noreturn for s_ in succs):
+            continue
+        if any(s_ == bid or bid in pd.get(s_, set()) for s_ in succs):
+            out.append(blk)
+    return out
+
+
+def check_destructors(ctx, prog):
+    """a destructor (a function whose name says `free` and that releases fields of its argument) releases each field
+    under no condition other than that field's (or its owner's) own NULL test or the loop that walks the container.
+    A guard on some other field (`nelems > 0`) silently keeps the memory whenever the two disagree."""
+    import re
+    n = 0
+    for fn in prog.all_functions():
+        if not re.search(r"(^|_)free(_|$)", fn.name) or fn.name in ("NCI_Free_fn",) or fn.relfile().endswith("mem_alloc.c"):
+            continue
+        for b, i, c in patterns.call_sites(fn, lambda nm: nm in ("NCI_Free_fn", "free")):
+            a = strip(c["args"][0])
+            while isinstance(a, dict) and a.get("k") == "cast":
+                a = strip(a["e"])
+            if not isinstance(a, dict) or a.get("k") != "mem":
+                continue
+            n += 1
+            ctx.functions_analysed.add((fn.unit.name, fn.name))
+            own = canon(a)
+            # the field itself and every owner prefix: a->b[i]->c  ->  a->b[i], a->b, a
+            prefixes = {own}
+            x = a
+            while isinstance(x, dict) and x.get("k") in ("mem", "idx", "un"):
+                x = strip(x.get("b") if x.get("k") in ("mem", "idx") else x.get("e"))
+                if isinstance(x, dict):
+                    prefixes.add(canon(x))
+            inst = "%s:free(%s)" % (fn.name, own)
+            bad = None
+            for blk in controlling_conditions(fn, b.id):
+                if blk.term in ("for", "while", "do"):
+                    continue
+                ct = canon(blk.cond)
+                cc = strip_pre(blk.cond)
+                cc = strip(cc) if isinstance(cc, dict) else cc
+                tested = None       # the expression whose NULL-ness the condition tests
+                if isinstance(cc, dict) and cc.get("k") == "bin" and cc.get("op") in ("==", "!="):
+                    if const_value(cc["b"]) == 0:
+                        tested = canon(cc["a"])
+                    elif const_value(cc["a"]) == 0:
+                        tested = canon(cc["b"])
+                elif isinstance(cc, dict) and cc.get("k") == "un" and cc.get("op") == "!":
+                    tested = canon(cc["e"])
+                elif isinstance(cc, dict) and cc.get("k") in ("mem", "ref", "idx"):
+                    tested = canon(cc)
+                if tested in prefixes:
+                    continue
+                exc = DESTRUCTOR_GUARDS.get((fn.name, own))
+                if exc and exc[0] == ct:
+                    continue
+                bad = ct
+            if bad:
+                ctx.fail("R3.destructor", fn.name, "free(%s)" % own, "`%s` is released only when `%s`: the condition is not about the "
+                         "pointer being released, so an object for which the two disagree keeps its memory after the last close"
+                         % (own, bad[:60]), fn=fn, line=c.get("l", 0), inst=inst)
+            else:
+                ctx.ok("R3.destructor", inst, "released unconditionally or under its own NULL test", nontrivial=False)
+    ctx.require(n >= 15, "R3.destructor: only %d field releases in destructors found" % n)
+
+
 def check_leaks(ctx, prog):
     from rules import r3leak
     from callgraph import CallGraph
@@ -428,6 +511,8 @@ def run(ctx):
     check_uses(ctx, prog)
     check_slot(ctx, prog)
     check_close(ctx, prog)
+    ctx.rule("R3.destructor", "destructors release each field unconditionally or under that field's own NULL test")
+    check_destructors(ctx, prog)
     ctx.rule("R3.emptyfree", "release-on-empty tests observe the count after the removal")
     check_emptyfree(ctx, prog)
     check_leaks(ctx, prog)
